@@ -97,3 +97,39 @@ k("canary_must_fail", *AN, ["C04", "C05", "C06", "C07"], "canary", timeout=600)
 K[-1]["flags"] = ANF
 DUR = ("verif_dur", "mina_core", "core/src/verif_dur.rs")
 k("std_from_secs_f32_zero", *DUR, ["C06"], "lemma", function="std Duration::from_secs_f32", clause="from_secs_f32(0) == ZERO (executed, not assumed)")
+
+BV = ("verif", "bevy_extract", "src/lib.rs")
+A6 = "A6 Bevy ECS replaced by shims (one entity, recording event writer, symbolic Time::delta)"
+k("animate_step_contract", *BV, ["C18"], "contract", function="bevy animate (per-entity loop body)",
+  clause="from EVERY animator state: disabled => nothing; no timeline => None, time frozen; else state monotone, position += delta iff not Ended, Waiting => pos < delay, Ended <=> was Ended || pos >= duration (never under infinite), update iff was Playing at the current position, exactly one event iff the state changed carrying the final state",
+  assumes=[A6, "A4' Duration::as_secs_f32 abstracted (monotone)"])
+k("ended_from_playing_holds_terminal_values", *BV, ["C18"], "contract", function="bevy animate (per-entity loop body)",
+  clause="Ended reached from Playing => the component was evaluated at a position >= duration in that very step (terminal values)", assumes=[A6])
+k("ended_implies_terminal_values", *BV, ["C18"], "contract", function="bevy animate (per-entity loop body)",
+  clause="from every enabled not-ended pre-state: Ended reported => the component was evaluated at a position >= duration in that step", assumes=[A6])
+k("animator_api_contract", *BV, ["C18"], "contract", function="Animator::{new,default,with_timeline,reset,as_disabled,state}", clause="constructors start enabled at zero in None; reset rewinds and keeps the timeline")
+k("select_animation_step_contract", *BV, ["C19"], "contract", function="bevy select_animation (per-entity loop body)",
+  clause="same key => nothing restarts; new key => clone of that key's timeline started from the component's current values, animator reset; key without timeline => timeline None, component untouched", assumes=[A6])
+k("chain_animations_step_contract", *BV, ["C19"], "contract", function="bevy chain_animations (per-event loop body)",
+  clause="key moves to next[key] iff the event is Ended for this entity and the chain has an entry; else unchanged", assumes=[A6])
+k("finding_chain_ignores_which_animator_ended", *BV, ["C19"], "finding", function="bevy chain_animations (per-event loop body)",
+  clause="KNOWN FINDING C19-event-has-no-component-type: the chain must not fire for another animator's Ended event")
+k("canary_must_fail", *BV, ["C18", "C19"], "canary")
+
+DG = ("", "mina", "tests/verif_derive.rs")
+def kd(id, props, kind="contract", clause=None, bound=None):
+    k(id, "PLACEHOLDER", "mina", "tests/verif_derive.rs", props, kind, function="derive(Animate) expansion", clause=clause, bound=bound, tests=True, timeout=600)
+    K[-1]["harness"] = id
+    K[-1]["assumes"] = ["callees prepare_frame / SubTimeline::{value_at, override_start_value, from_keyframes} replaced by scripted recording stubs (their behaviour is proved by the other layers)"]
+FAM = "struct family: {x:f32} unattributed; {#[animate] a:f32, b:u8, #[animate] c:i16}; six pub fields f32/f64/u8/i16/i32/u32; remote proxy - bounded over programs"
+kd("shape1::update_contract", ["C17", "C08", "C09", "C01"], clause="generated update = prepare_frame(time, boundary_times, timescale) then per animated field assign iff value_at(nt, idx, flag) is Some; prior field content irrelevant", bound=FAM)
+kd("shape1::start_with_contract", ["C17", "C09", "C10"], clause="start_with hands each field's value to its own sub-timeline; timescale and boundary times untouched", bound=FAM)
+kd("shape1::build_and_accessors_contract", ["C17", "C03"], clause="accessors return the configured delay/cycle/repeat; build wires each field to its own getter and Default; keyframe_from copies the animated fields", bound=FAM)
+kd("shape3::update_contract", ["C17", "C08", "C09", "C01"], clause="as shape1; the field excluded from animation is never written; all fields get the same (nt, idx, flag)", bound=FAM)
+kd("shape3::start_with_contract", ["C17", "C09", "C10"], clause="every animated field reaches its own sub-timeline", bound=FAM)
+kd("shape3::build_contract", ["C17"], clause="keyframe data has exactly the animated fields; per-field getter/default wiring", bound=FAM)
+kd("shape6::update_contract", ["C17", "C08", "C09"], clause="six fields of six numeric types, each assigned iff its own value_at is Some", bound=FAM)
+kd("shape6::start_with_contract", ["C17", "C09"], clause="six fields reach six sub-timelines", bound=FAM)
+kd("remote::update_contract", ["C17", "C08"], clause="remote proxy: Target is the remote type; its other fields untouched", bound=FAM)
+kd("remote::keyframe_from_contract", ["C17"], clause="keyframe_from reads the remote value", bound=FAM)
+kd("canary::canary_must_fail", ["C17", "C09"], kind="canary")
